@@ -451,6 +451,11 @@ func c01R4(c *Ctx, r *Report, rule string) {
 					problems = append(problems, "prefetch stores "+e.What+": "+tr)
 				}
 			}
+			for _, e := range p.Trace {
+				if e.Kind == "call" && e.What == fnName {
+					problems = append(problems, "prefetch calls itself: one prefetch is then more than one read of the connection - after a read that returned everything the client has sent, the second one waits until the matching deadline and its error replaces the bytes already buffered: "+tr)
+				}
+			}
 			if len(raw) != 1 || len(bufStores) != 1 {
 				problems = append(problems, fmt.Sprintf("expected one underlying read and one buffer update, got %d/%d: %s", len(raw), len(bufStores), tr))
 				continue
